@@ -137,15 +137,23 @@ func genC05(g *Gen, tier string) *Case {
 	if g.Chance(0.05) {
 		ops = []Tok{TL(TNi(hlNew), TNi(0), TNu(uint64(g.Pick(0, 3, 6, 100))))}
 	}
+	huge := g.Big && g.Chance(0.04)
+	if huge {
+		m = uint64(g.Pick(65536, 65536, 131072))
+		ops = []Tok{TL(TNi(hlNew), TNi(0), TNu(m))}
+	}
 	ops = append(ops, hllCountOp(g, 0))
 	n := g.Pick(0, 1, 5, 20, 60)
 	if tier == "thorough" {
 		n = g.Pick(0, 1, 5, 20, 60, 300, 1000)
 	}
+	if huge {
+		n = g.Pick(1, 5, 20)
+	}
 	// in a third of the cases the estimate is read with fixed flags after every update, so that
 	// "the estimate grows with the number of distinct elements" is checked step by step; small
 	// key spaces ("user-<i>") make several elements share a register
-	track := g.Chance(0.35) && n <= 60 // every tracked step costs one exact-rational check in the model
+	track := g.Chance(0.35) && n <= 60 && !huge // every tracked step costs one exact-rational check in the model
 	wc, wr := g.Intn(2), g.Intn(2)
 	for j := 0; j < n; j++ {
 		x := []byte(fmt.Sprintf("e%d-%d", g.Intn(1<<30), j))
@@ -254,7 +262,8 @@ func monitorHLL(backend, prop string) Monitor {
 			last map[string]uint64 // last Count per flag combination since the last non-monotone operation
 		}
 		st := map[int]*sh{}
-		regsBySet := map[string]string{} // (m, canonical set) -> registers
+		regsBySet := map[string]string{}   // (m, canonical set) -> registers
+		countByRegs := map[string]uint64{} // (m, registers, flags) -> estimate
 		setKey := func(s *sh) string {
 			ks := make([]string, 0, len(s.set))
 			for k := range s.set {
@@ -267,6 +276,12 @@ func monitorHLL(backend, prop string) Monitor {
 			if a[0].I() >= 20 && len(a) > 1 { // persistence operations may replace the whole state
 				if s := st[a[1].I()]; s != nil {
 					s.last = map[string]uint64{}
+					s.regs = ""
+				}
+			}
+			if c := a[0].I(); (c == hlUpdate || c == hlMerge || c == hlReset) && len(a) > 1 {
+				if s := st[a[1].I()]; s != nil {
+					s.regs = ""
 				}
 			}
 			switch a[0].I() {
@@ -292,6 +307,16 @@ func monitorHLL(backend, prop string) Monitor {
 				}
 			case hlCount:
 				s := st[a[1].I()]
+				if s != nil && prop == "C06" && len(a) >= 5 && s.regs != "" {
+					// the estimate is a function of the registers: two sketches seen with equal
+					// registers (a merged one and the one fed the union) count alike
+					k := fmt.Sprintf("%d|%s|%s%s", s.m, s.regs, a[2].String(), a[3].String())
+					if prev, ok := countByRegs[k]; ok && prev != a[4].U() {
+						out = append(out, MonViolation{backend + "/Count/differs-for-equal-registers",
+							fmt.Sprintf("m=%d: two sketches holding the same registers count %d and %d", s.m, prev, a[4].U()), step})
+					}
+					countByRegs[k] = a[4].U()
+				}
 				if s == nil || prop != "C05" || len(a) < 5 {
 					continue
 				}
@@ -306,6 +331,10 @@ func monitorHLL(backend, prop string) Monitor {
 				c := float64(a[4].U())
 				n := float64(len(s.set))
 				tol := 5 * 1.04 / math.Sqrt(float64(s.m))
+				if n >= 1 && c == 0 && s.m >= 128 {
+					out = append(out, MonViolation{backend + "/Count/zero-on-nonempty",
+						fmt.Sprintf("m=%d: a sketch holding %v distinct elements counts 0", s.m, n), step})
+				}
 				if n == 0 {
 					if c > 2+tol*float64(s.m) {
 						out = append(out, MonViolation{backend + "/Count/empty-not-zero",
@@ -330,6 +359,7 @@ func monitorHLL(backend, prop string) Monitor {
 						"two sketches that received the same set of elements hold different registers", step})
 				}
 				regsBySet[k] = o.String()
+				s.regs = o.String()
 			case hlMerge:
 				x, y := st[a[1].I()], st[a[2].I()]
 				if x == nil || y == nil || prop != "C06" {
